@@ -7,6 +7,7 @@ real DirectorySnapshot objects over a dict-backed VFS (injectable stat/listdir).
 from __future__ import annotations
 
 import itertools
+import os
 import random
 
 from wdverif.env.vfs import VFS, Ent
@@ -83,6 +84,15 @@ def judge_pair(b: Batch, s0, s1, recursive, as_bytes, tag, root0=None, root1=Non
     if not (difflaws.one_path_per_inode(ref) and difflaws.one_path_per_inode(new)):
         b.count("skipped_precondition")
         return
+    if tag == "copy":
+        # a snapshot that went through pickle / copy is the same snapshot (they are persisted between runs by applications)
+        import copy
+        import pickle
+
+        k = (len(s0) + len(s1)) % 3
+        ref = pickle.loads(pickle.dumps(ref)) if k != 1 else copy.deepcopy(ref)
+        new = copy.copy(new) if k == 0 else (pickle.loads(pickle.dumps(new)) if k == 1 else new)
+        b.count("pairs_through_pickle_or_copy")
     b.case()
     d = DirectorySnapshotDiff(ref, new)
     errs = difflaws.check_diff(ref, new, d)
@@ -130,6 +140,19 @@ def judge_device(b: Batch, s0, recursive):
     new, _ = snap(s1, recursive, root_ent=Ent(1000, 7, True, 0, 0))
     d = DirectorySnapshotDiff(ref, new, ignore_device=True)
     b.count("ignore_device_judged")
+    # device change plus real modifications: with ignore_device the modifications (and only they) are reported
+    keys = sorted(s0)
+    if keys:
+        mod = {p for i, p in enumerate(keys) if (i + len(keys)) % 2 == 0}
+        s2 = {p: (e._replace(mtime=e.mtime + 1) if p in mod else e) for p, e in s1.items()}
+        new2, v2_ = snap(s2, recursive, root_ent=Ent(1000, 7, True, 0, 0))
+        d3 = DirectorySnapshotDiff(ref, new2, ignore_device=True)
+        c3, x3, m3, mod3 = difflaws.diff_sets(d3)
+        want = {v2_.full(q) for q in mod} & set(new2.paths) & set(ref.paths)
+        b.count("ignore_device_with_modification_judged")
+        if c3 or x3 or m3 or mod3 != want:
+            b.violation("difflaw:ignore-device", f"device change + modified {sorted(mod)}: created={sorted(c3)} deleted={sorted(x3)} moved={sorted(m3)} modified={sorted(mod3)} expected modified={sorted(want)}",
+                        witness={"ref": sorted(s0.items())}, replay_spec={"kind": "device", "s0": sorted(s0.items()), "recursive": recursive})
     if not difflaws.is_empty(d):
         b.violation("difflaw:ignore-device", f"pure device change produced {d!r}",
                     witness={"ref": sorted(s0.items())}, replay_spec={"kind": "device", "s0": sorted(s0.items()), "recursive": recursive})
@@ -375,7 +398,7 @@ def run_batch(spec):
                 # tree (mv root tmp; mkdir root; mv tmp root/sub - and the inverse)
                 root0, root1 = root_identity_change(r, s0, s1)
                 b.count("root_identity_pairs")
-            judge_pair(b, s0, s1, rec, r.random() < 0.3, tag=(n % 500 == 0), root0=root0, root1=root1)
+            judge_pair(b, s0, s1, rec, r.random() < 0.3, tag=("copy" if n % 7 == 3 else n % 500 == 0), root0=root0, root1=root1)
             if n % 10 == 0:
                 judge_device(b, s0, rec)
                 judge_entrypoints(b, s0, s1, rec)
